@@ -574,6 +574,7 @@ func runC16(c *Ctx) {
 	})
 
 	c16entryPoints(c, sources[:min(len(sources), c.N(24, 146))])
+	c.Require("accepted", "option_passing_ways_compared", "replications", "cli:correct-accepted", "bulk:correct-accepted")
 }
 
 func checkReplica(src, res *jmut.Node, d0, d1 string, recalc bool) (field, detail string) {
